@@ -375,7 +375,8 @@ Definition annotation (c : comp) : result str :=
   let* base :=
     if ty =? BF3TYPE_MAIN then Ok s_Main
     else if ty =? BF3TYPE_LOADER then
-      let* ib := desc_get BF3TAG_INTF d in
+      (* "if BF3TAG.INTF not in comp.description: raise Bf3FileFormatError" *)
+      let* ib := match dget N.eqb BF3TAG_INTF d with Some b => Ok b | None => Err EBf3 end in
       match rev_lookup (from_be ib) BF3INTF_names with
       | Some nm => Ok (nm ++ s_Loader)
       | None => Err EKey
@@ -418,6 +419,8 @@ Record st := mkSt { s_data : list line; s_instrs : idict; s_log : log; s_comment
 
 Definition caught (e : err) : bool :=       (* except (ValueError, IndexError, KeyError) *)
   is_value e || err_eqb e EIndex || err_eqb e EKey.
+(* emit_bf3comp: except (ValueError, IndexError, KeyError, OverflowError) *)
+Definition caught_emit (e : err) : bool := caught e || err_eqb e EOverflow.
 
 Definition nonempty {A} (l : list A) : bool := match l with [] => false | _ => true end.
 
@@ -446,7 +449,7 @@ Definition emit (data : list line) (i : idict) (c : cdict) : result (idict * cdi
                    | Some x => let* xb := to_bytes 1 x in Ok (dset N.eqb BF3TAG_INTF xb d1)
                    end in
         match exec i d2 c with
-        | Err e => if caught e then Err EBf3 else Err e
+        | Err e => if caught_emit e then Err EBf3 else Err e
         | Ok (i', c', None) => Ok (i', c', None)
         | Ok (i', c', Some d) =>
           let* content := convert data fmt in
@@ -483,7 +486,8 @@ Definition step (s : st) (t : token) : result st :=
     end
   | Instr name p =>
     if str_eqb name s_load then
-      (* params[0].fwtagtype on something that is not a list of lines *)
+      (* params[0].fwtagtype on something that is not a list of lines.  From text only
+         "#>load" (a dict) can produce such a token; "##load:" is refused by the parser *)
       match p with
       | PStr [] => Err EIndex
       | PStr _ => Err EType             (* AttributeError in Python: not in the enum, never compared *)
@@ -560,7 +564,9 @@ Definition parse_cmd_line (rest : str) : result token :=       (* rest = line[2:
 
 Definition parse_meta_line (rest : str) : result token :=
   match split_on 58 rest with
-  | [name; value] => Ok (Instr name (PStr (strip value)))
+  | [name; value] =>
+    if str_eqb name s_load then Err EValue            (* reserved header name *)
+    else Ok (Instr name (PStr (strip value)))
   | _ => Err EValue
   end.
 
